@@ -79,7 +79,26 @@ void profile_storm(RunCtx& ctx)
         std::string what;
         int kind = rng.below(100);
         // --- choose input and entry point ---
-        if (rng.chance(0.04)) {
+        if (rng.chance(0.02)) {
+            // a ladder of constants in which every rung uses the previous rung(s) several times (two interleaved chains form
+            // diamonds), and a template-local array sized by the last one: linear work if shared dependencies are visited
+            // once, exponential if they are re-expanded
+            const int depth = rng.range(8, 40);
+            const bool diamonds = rng.chance(0.7);
+            std::string decl = "const int zb0 = 1; const int zc0 = 2;\n";
+            for (int d = 1; d <= depth; ++d) {
+                const std::string pv = std::to_string(d - 1), nx = std::to_string(d);
+                if (diamonds)
+                    decl += "const int zb" + nx + " = zb" + pv + " + zc" + pv + "; const int zc" + nx + " = zb" + pv + " - zc" + pv + " + 1;\n";
+                else
+                    decl += "const int zc" + nx + " = zc" + pv + " + zc" + pv + " - zc" + pv + ";\n";
+            }
+            c.bytes = "<nta><declaration>" + decl + "</declaration><template><name>ZT</name><declaration>int zarr[z" + std::string{diamonds ? "b" : "c"} + std::to_string(depth) +
+                      " * 0 + 3];</declaration><location id=\"id0\"><name>L0</name></location><init ref=\"id0\"/></template><system>ZP = ZT(); system ZP;</system></nta>";
+            c.entry = rng.below(3);
+            what = "constant-ladder";
+            ctx.count("content-fault:constant-ladder");
+        } else if (rng.chance(0.04)) {
             // a DOCTYPE with nested internal entities referenced from a text block ("billion laughs"): harmless as long
             // as entity references are not substituted; exponential in the nesting depth when they are
             int depth = rng.range(3, 14), fan = rng.range(2, 12);
@@ -236,6 +255,8 @@ void profile_storm(RunCtx& ctx)
                     {UTAP::S_XTA_PROCESS, "process ZQ() { state A, B; init A; trans A -> B { select i : int[0,1]; guard i > 0; probability 3; }, -> A { }; }"},
                     {UTAP::S_PROPERTY, "A[] (gi0 > 1 imply A<> gi0 == 0) and not deadlock\nE<> forall (i : int[0,1]) gi0 > i\ninf: gx0\nsup{gi0 > 1}: gi0, gx0"},
                     {UTAP::S_PROPERTY, "Pr[<=10; 100](<> gi0 > 3) >= 0.5\nE[<=10; 5](max: gi0)\nsimulate [<=10; 2] {gi0, gx0} : 1 : gi0 > 2\nPr[#<=5]([] gi0 < 3) <= Pr[<=5](<> gi0 > 1)"},
+                    {UTAP::S_DECLARATION, "double zr1 = random(5); double zr2 = random_normal(1.0, 2.0); const double zr3 = random_tri(0, 1, 2); int zr4[2] = { 1, 2 };"},
+                    {UTAP::S_PROPERTY, "Pr[<=random(5)](<> gi0 > 1)\nPr[<=10; 50](<> gi0 > 3) >= Pr[<=5; 20]([] gi0 < 2)\nPr[#<=10; 7]([] gi0 < 2) <= Pr[<=5](<> gi0 > 1)"},
                     {UTAP::S_PROPERTY, "strategy zst = control: A[] gi0 < 5\nA<> gi0 == 1 under zst\nsaveStrategy(\"/nonexistent/zz\", zst)\nstrategy zld = loadStrategy{gi0}->{gx0}(\"zz\")\nstrategy zmn = minE(gi0)[<=10]{gi0}->{gx0} : <> gi0 > 1"},
                 };
                 const Snip& sn = snips[rng.below(sizeof snips / sizeof snips[0])];
@@ -256,7 +277,7 @@ void profile_storm(RunCtx& ctx)
             c.xpath = rng.chance(0.5) ? b.xpath : "";
         } else {
             static const std::vector<std::string> q{
-                "A[] not deadlock", "E<> gi0 > 1", "Pr[<=10](<> gi0 > 3) >= 0.5", "Pr[<=10](<> gi0>3) >= Pr[<=5]([] gi0<2)",
+                "A[] not deadlock", "E<> gi0 > 1", "Pr[<=10](<> gi0 > 3) >= 0.5", "Pr[<=10](<> gi0>3) >= Pr[<=5]([] gi0<2)", "Pr[<=10; 50](<> gi0>3) >= Pr[<=5; 20]([] gi0<2)", "Pr[<=10; 7](<> gi0>3) <= Pr[#<=5]([] gi0<2)",
                 "simulate [<=10] {gi0, gx0}", "simulate [<=10;5] {gi0} : 2 : gi0 > 1", "E[<=10;10](max: gi0)",
                 "control: A<> gi0 == 1", "strategy zs = control: A[] true", "strategy zm = minE(gi0)[<=10] : <> gi0 > 1",
                 "saveStrategy(\"/nonexistent/s.out\", zs)", "strategy zl = loadStrategy{gi0}->{gx0}(\"f\")", "sup: gi0", "inf{gi0 > 1}: gx0, gi0",
